@@ -202,3 +202,35 @@ def conv_to(x, u, v):
         return ("val", as_float(r.magnitude.value), r.baseunits.expression, snapshot(r) == snapshot(q), kind_of(r.magnitude.value))
     except Exception as e:
         return ("err", type(e).__name__ + ": " + str(e.args[:1])[:100], snapshot(q) == before)
+
+
+def conv_to_quantity(x, u, m, v):
+    """Quantity(x,u).to(Quantity(m,v)) on fresh objects ->
+       ('val', value, units expression, in place?, target unchanged?) | ('err', text, source unchanged?, target unchanged?)"""
+    from scinumtools.units import Quantity
+    try:
+        q = Quantity(mag_in(x), u)
+        t = Quantity(m, v)
+    except Exception as e:
+        return ("err", "construct: " + type(e).__name__ + ": " + str(e.args[:1])[:100], True, True)
+    bq, bt = snapshot(q), snapshot(t)
+    try:
+        r = q.to(t)
+        return ("val", as_float(r.magnitude.value), r.baseunits.expression, snapshot(r) == snapshot(q), snapshot(t) == bt)
+    except Exception as e:
+        return ("err", type(e).__name__ + ": " + str(e.args[:1])[:100], snapshot(q) == bq, snapshot(t) == bt)
+
+
+def conv_uncertain(x, u, v, kind, amount):
+    """value(v) and to(v) of a quantity that carries an uncertainty -> ('val', value via value(), value via to()) | ('err', text)"""
+    from scinumtools.units import Quantity
+    xv = mag_float(x)
+    try:
+        if kind == "rele":
+            q1 = Quantity(mag_in(x), u, rele=amount); q2 = Quantity(mag_in(x), u, rele=amount)
+        else:
+            a = float(np.max(np.abs(xv))) * amount or amount
+            q1 = Quantity(mag_in(x), u, abse=a); q2 = Quantity(mag_in(x), u, abse=a)
+        return ("val", as_float(q1.value(v)), as_float(q2.to(v).magnitude.value))
+    except Exception as e:
+        return ("err", type(e).__name__ + ": " + str(e.args[:1])[:100])
